@@ -52,7 +52,9 @@ REQUIRED_TAGS = (['ran:' + e.name for e in CONTRACTED]
                  + ['pd1', 'pd2', 'pd3', 'rational', 'nonrational', 'periodic', 'nonperiodic', 'dim2', 'dim3',
                     'history', 'result:object', 'result:buffer', 'result:scalar', 'result:container'])
 
-# labels of the defect classes already seen on the pinned tree (see classify)
+# stable labels of the defect classes this check has found (see classify).  All but
+# `splinemodel-retains-operand` have been repaired in the library; the labels stay so that a
+# regression is reported under the same name (a `fixed` entry suppresses nothing).
 KNOWN_LABELS = {
     ('volume_factory.extrude', 'write'): 'extrude-mutates-operand',
     ('SplineObject.section', 'alias'): 'section-point-view',
